@@ -2,6 +2,7 @@
 From Coq Require Import List String Bool Arith Lia.
 Import ListNotations.
 From TD Require Import Model.C01_Tree Model.C01_Ops Model.C01_Scope Proofs.C01_TreeP Proofs.C01_NamesP Proofs.C01_BatchP Proofs.C01_SetP.
+From TD Require Model.C04_Tree.
 Open Scope string_scope.
 Open Scope list_scope.
 
@@ -18,15 +19,13 @@ Proof.
   destruct o; [|exact H1|exact H1]. apply IH; [exact H1|]. intros x s Hin. apply Hf. now right.
 Qed.
 
-(* entries of a coherent, hollow-free tensordict are values a caller may hand over *)
+(* entries of a coherent tensordict are values a caller may hand over *)
 Lemma entry_value_ok : forall k bs dv nm es key c,
-  coh [] None (Node k bs dv nm es) = true -> hollow_free (Node k bs dv nm es) = true -> In (key, c) es ->
-  coh [] None c = true /\ hollow_free c = true.
+  coh [] None (Node k bs dv nm es) = true -> In (key, c) es -> coh [] None c = true.
 Proof.
-  intros k bs dv nm es key c Hc Hf Hin. split.
-  - apply coh_node_iff in Hc as (_ & _ & _ & H4). apply coh_ents_forall in H4. rewrite Forall_forall in H4.
-    eapply coh_nodev. eapply coh_weaken; [apply (H4 _ Hin)|apply prefixb_nil].
-  - apply (hollow_free_child _ _ _ _ _ _ Hf Hin).
+  intros k bs dv nm es key c Hc Hin.
+  apply coh_node_iff in Hc as (_ & _ & _ & H4). apply coh_ents_forall in H4. rewrite Forall_forall in H4.
+  eapply coh_nodev. eapply coh_weaken; [apply (H4 _ Hin)|apply prefixb_nil].
 Qed.
 
 Lemma rebuild_coh : forall p d bs dv nm es k c',
@@ -38,23 +37,23 @@ Qed.
 
 (* ---- update ---- *)
 Lemma upd_t_coh : forall src ip self p d,
-  coh [] None src = true -> hollow_free src = true -> coh p d self = true -> coh p d (fst (upd_t src ip self)) = true.
+  coh [] None src = true -> coh p d self = true -> coh p d (fst (upd_t src ip self)) = true.
 Proof.
-  induction src as [sh dd|sk sbs sdv snm ses IH] using tree_ind2; intros ip self p d Hs Hf Hc.
+  induction src as [sh dd|sk sbs sdv snm ses IH] using tree_ind2; intros ip self p d Hs Hc.
   - destruct self; exact Hc.
   - destruct self as [|[] bs dv nm es]; try exact Hc. cbn [upd_t].
     destruct (negb (shape_eqb (firstn (List.length sbs) bs) (firstn (List.length bs) sbs))); [exact Hc|].
     apply (seq_steps_inv _ _ (fun s => coh p d s = true)); [exact Hc|].
     intros [k c] s Hin Hs'. cbn beta iota.
-    destruct (entry_value_ok _ _ _ _ _ _ _ Hs Hf Hin) as [Hvc Hfc].
+    pose proof (entry_value_ok _ _ _ _ _ _ _ Hs Hin) as Hvc.
     assert (Hset : forall ipl, coh p d (fst (set_tuple [k] (VTree c) ipl s)) = true).
-    { intros ipl. apply set_tuple_coh; [exact Hs'|]. cbn. now rewrite Hvc, Hfc. }
+    { intros ipl. apply set_tuple_coh; [exact Hs'|]. exact Hvc. }
     destruct s as [|[] bs' dv' nm' es']; try exact Hs'.
     destruct (aget k es') as [[|[] tb td tn te]|] eqn:Eg; destruct c as [|[] cb cd cn ce]; try apply Hset.
     rewrite Forall_forall in IH. pose proof (IH _ Hin) as IHc. cbn [snd] in IHc.
     pose proof Hs' as Hall. apply coh_node_iff in Hs' as (_ & _ & _ & H4).
     pose proof (coh_ents_aget _ _ _ _ _ H4 Eg) as Ht.
-    specialize (IHc ip (Node KTd tb td tn te) bs' dv' Hvc Hfc Ht).
+    specialize (IHc ip (Node KTd tb td tn te) bs' dv' Hvc Ht).
     destruct (upd_t (Node KTd cb cd cn ce) ip (Node KTd tb td tn te)) as [t' o]. cbn [fst] in *.
     now apply rebuild_coh.
 Qed.
@@ -63,7 +62,7 @@ Lemma upd_v_coh : forall v ip self p d,
   value_okb v = true -> coh p d self = true -> coh p d (fst (upd_v v ip self)) = true.
 Proof.
   induction v as [t0| |items IH] using value_ind2; intros ip self p d Hok Hc.
-  - cbn [upd_v]. cbn [value_okb] in Hok. apply andb_true_iff in Hok as [H1 H2]. now apply upd_t_coh.
+  - cbn [upd_v]. cbn [value_okb] in Hok. now apply upd_t_coh.
   - exact Hc.
   - cbn [upd_v]. cbn [value_okb] in Hok. rewrite forallb_forall in Hok.
     apply (seq_steps_inv _ _ (fun s => coh p d s = true)); [exact Hc|].
@@ -76,8 +75,8 @@ Proof.
     pose proof Hs' as Hall. apply coh_node_iff in Hs' as (_ & _ & _ & H4).
     pose proof (coh_ents_aget _ _ _ _ _ H4 Eg) as Ht.
     destruct vi as [[|[] sb sd sn se]|sub|]; try apply Hset.
-    + cbn [value_okb] in Hokv. apply andb_true_iff in Hokv as [H1 H2].
-      pose proof (upd_t_coh (Node KTd sb sd sn se) ip (Node KTd tb td tn te) bs' dv' H1 H2 Ht) as Hu.
+    + cbn [value_okb] in Hokv.
+      pose proof (upd_t_coh (Node KTd sb sd sn se) ip (Node KTd tb td tn te) bs' dv' Hokv Ht) as Hu.
       destruct (upd_t (Node KTd sb sd sn se) ip (Node KTd tb td tn te)) as [t' o]. cbn [fst] in *. now apply rebuild_coh.
     + specialize (IHv ip (Node KTd tb td tn te) bs' dv' Hokv Ht).
       destruct (upd_v (VDict sub) ip (Node KTd tb td tn te)) as [t' o]. cbn [fst] in *. now apply rebuild_coh.
@@ -126,22 +125,36 @@ Proof.
     eapply coh_up; [exact C1|exact C2|]. eapply (IH (Node KTd cbs cdv cnm ces)); eauto.
 Qed.
 
-(* ---- rename_key_ with a string as new key (the nested form is finding D103) ---- *)
-Lemma rename_key_coh : forall old k safe self p d,
-  coh p d self = true -> coh p d (fst (rename_key old [k] safe self)) = true.
+(* storing an already validated entry under a string key *)
+Lemma put_path1_coh : forall k v self bs dv p d,
+  coh p d self = true -> thdr self = Some (KTd, bs, dv) -> coh bs dv v = true -> coh p d (fst (put_path [k] v self)) = true.
 Proof.
-  intros old k safe self p d Hc. unfold rename_key.
-  destruct (through_nt old self || through_nt [k] self); [exact Hc|].
-  destruct old as [|o0 orest]; [exact Hc|].
-  destruct (path_eqb (o0 :: orest) [k]); [exact Hc|].
-  destruct (safe && contains_path [k] self); [exact Hc|].
+  intros k v self bs dv p d Hc Hh Hv. destruct self as [|[] bs0 dv0 nm es]; try discriminate.
+  cbn in Hh. injection Hh as -> ->. cbn [put_path fst]. now apply rebuild_coh.
+Qed.
+
+(* ---- rename_key_ (after fixes/C01/D103.diff: a nested new key goes through _set_tuple with validated=False) ---- *)
+Lemma rename_key_coh : forall old new safe self p d,
+  coh p d self = true -> coh p d (fst (rename_key old new safe self)) = true.
+Proof.
+  intros old new safe self p d Hc. unfold rename_key.
+  destruct (through_nt old self || through_nt new self); [exact Hc|].
+  destruct old as [|o0 orest]; [exact Hc|]. destruct new as [|n0 nrest]; [exact Hc|].
+  destruct (path_eqb (o0 :: orest) (n0 :: nrest)); [exact Hc|].
+  destruct (safe && contains_path (n0 :: nrest) self); [exact Hc|].
   destruct (get_path (o0 :: orest) self) as [v| | |] eqn:Eg; try exact Hc.
   destruct self as [|[] bs dv nm es]; try discriminate.
   pose proof (get_path_coh _ _ _ _ _ _ _ Hc eq_refl Eg) as Hv.
-  cbn [put_path].
-  assert (H1 : coh p d (Node KTd bs dv nm (aset k v es)) = true) by now apply rebuild_coh.
-  destruct (path_eqb (firstn (List.length [k]) (o0 :: orest)) [k] && Nat.ltb 1 (List.length (o0 :: orest))); [exact H1|].
-  now apply del_path_coh.
+  destruct nrest as [|n1 nrest'].
+  - pose proof (put_path1_coh n0 v (Node KTd bs dv nm es) bs dv p d Hc eq_refl Hv) as H1.
+    destruct (put_path [n0] v (Node KTd bs dv nm es)) as [s1 o1]. cbn [fst] in H1.
+    destruct o1; try exact H1. destruct (_ && _); [exact H1|]. now apply del_path_coh.
+  - unfold fixed_D103. destruct (has_names v); [exact Hc|].
+    assert (H1 : coh p d (fst (set_tuple (n0 :: n1 :: nrest') (VTree v) INo (Node KTd bs dv nm es))) = true).
+    { apply set_tuple_coh; [exact Hc|]. cbn [value_okb].
+      eapply coh_nodev. eapply coh_weaken; [exact Hv|apply prefixb_nil]. }
+    destruct (set_tuple (n0 :: n1 :: nrest') (VTree v) INo (Node KTd bs dv nm es)) as [s1 o1]. cbn [fst] in H1.
+    destruct o1; try exact H1. destruct (_ && _); [exact H1|]. now apply del_path_coh.
 Qed.
 
 (* ---- create_nested / set_non_tensor ---- *)
@@ -263,4 +276,12 @@ Proof.
   specialize (Hs HA).
   match goal with |- context [seq_steps ?f ?l ?s0] => destruct (seq_steps f l s0) as [s1 o1] end. cbn [fst] in Hs.
   destruct o1; try exact Hs. now apply exclude_in_coh.
+Qed.
+
+Lemma unflatten_in_coh : forall sep self p d, coh p d self = true -> coh p d (fst (unflatten_in sep self)) = true.
+Proof.
+  intros sep self p d Hc. destruct self as [|[] bs dv nm es]; try exact Hc. cbn [unflatten_in].
+  destruct sep as [|a sep']; [exact Hc|].
+  apply (seq_steps_inv _ _ (fun x => coh p d x = true)); [exact Hc|].
+  intros k x _ Hx. cbn beta. destruct (C04_Tree.str_contains _ k); [now apply rename_key_coh|exact Hx].
 Qed.
